@@ -154,6 +154,10 @@ m('A35-debug-only-bounds-check', [(VE, '''            Ordering::Less => Some(uns
                 debug_assert!(self.counter.current() <= self.vec_len + 1, "overshoot");
                 Some(unsafe { self.take_one(item_idx) })
             }''')], ['C17'])
+m('A36-large-chunk-loses-last-element', [(SL, '''            .saturating_add(n)
+            .min(self.initial_len())''', '''            .saturating_add(n)
+            .min(self.initial_len() - (n > 40 && self.initial_len() > 50) as usize)''')], ['C01', 'C03'], 'only for chunk sizes above 40 on sources longer than 50')
+m('A37-vec-take-one-wrong-beyond-32', [(VE, '''        let src_ptr = vec.as_mut_ptr().add(item_idx);''', '''        let src_ptr = vec.as_mut_ptr().add(if item_idx == 40 { 41.min(self.vec_len - 1) } else { item_idx });''')], ['C02', 'C08'], 'only position 40 of a vector')
 # variants that must stay quiet (Appendix B)
 m('B01-all-seqcst', [(AC, 'Ordering::AcqRel)', 'Ordering::SeqCst)'), (AC, 'Ordering::AcqRel)', 'Ordering::SeqCst)'), (AC, 'Ordering::Acquire)', 'Ordering::SeqCst)'),
                      (IT, 'self.completed.load(atomic::Ordering::Relaxed)', 'self.completed.load(atomic::Ordering::SeqCst)')], [], 'quiet')
